@@ -284,5 +284,120 @@ impl ValueVisitor {
 
 }
 
+// ---- the way back: a typed value read out of the value tree (value::de::Deserializer) ----
+/// what the visitor of the target type is handed
+pub enum Visited { Bool(bool), I8(i8), I16(i16), I32(i32), U8(u8), U16(u16), U32(u32), U64(u64), Char(char) }
+pub enum Error { InvalidValue, Other }
+pub struct VisitorS { pub g: Ghost<int> }
+macro_rules! visit_method {
+    ($($m:ident($t:ty) => $c:ident),*) => { verus!{ impl VisitorS { $(
+        #[verifier::external_body]
+        pub fn $m(self, v: $t) -> (r: Result<Visited, Error>) ensures r is Ok ==> r->Ok_0 == Visited::$c(v) { unimplemented!() }
+    )* } } }
+}
+visit_method!(visit_bool(bool) => Bool, visit_i8(i8) => I8, visit_i16(i16) => I16, visit_i32(i32) => I32, visit_u8(u8) => U8, visit_u16(u16) => U16, visit_u32(u32) => U32, visit_u64(u64) => U64, visit_char(char) => Char);
+pub struct VDeserializer { pub value: Value }
+impl VDeserializer {
+//@@ fn file=serde_amqp/src/value/de.rs impl=`impl<'de> de::Deserializer<'de> for Deserializer` name=deserialize_bool as=vde_bool
+//@@ generics
+//@@ nowhere
+//@@ param visitor : VisitorS
+//@@ ret Result<Visited, Error>
+//@@ spec
+    ensures
+        r is Ok ==> self.value is Bool && r->Ok_0 == Visited::Bool(self.value->Bool_0),      // [C20.value.from-value-bool] a bool is read out of the value tree only from the variant of that AMQP type, payload unchanged (no silent conversion from a neighbouring type)
+        !(self.value is Bool) ==> r is Err,
+//@@ end
+
+//@@ fn file=serde_amqp/src/value/de.rs impl=`impl<'de> de::Deserializer<'de> for Deserializer` name=deserialize_i8 as=vde_i8
+//@@ generics
+//@@ nowhere
+//@@ param visitor : VisitorS
+//@@ ret Result<Visited, Error>
+//@@ spec
+    ensures
+        r is Ok ==> self.value is Byte && r->Ok_0 == Visited::I8(self.value->Byte_0),      // [C20.value.from-value-i8] a i8 is read out of the value tree only from the variant of that AMQP type, payload unchanged (no silent conversion from a neighbouring type)
+        !(self.value is Byte) ==> r is Err,
+//@@ end
+
+//@@ fn file=serde_amqp/src/value/de.rs impl=`impl<'de> de::Deserializer<'de> for Deserializer` name=deserialize_i16 as=vde_i16
+//@@ generics
+//@@ nowhere
+//@@ param visitor : VisitorS
+//@@ ret Result<Visited, Error>
+//@@ spec
+    ensures
+        r is Ok ==> self.value is Short && r->Ok_0 == Visited::I16(self.value->Short_0),      // [C20.value.from-value-i16] a i16 is read out of the value tree only from the variant of that AMQP type, payload unchanged (no silent conversion from a neighbouring type)
+        !(self.value is Short) ==> r is Err,
+//@@ end
+
+//@@ fn file=serde_amqp/src/value/de.rs impl=`impl<'de> de::Deserializer<'de> for Deserializer` name=deserialize_i32 as=vde_i32
+//@@ generics
+//@@ nowhere
+//@@ param visitor : VisitorS
+//@@ ret Result<Visited, Error>
+//@@ spec
+    ensures
+        r is Ok ==> self.value is Int && r->Ok_0 == Visited::I32(self.value->Int_0),      // [C20.value.from-value-i32] a i32 is read out of the value tree only from the variant of that AMQP type, payload unchanged (no silent conversion from a neighbouring type)
+        !(self.value is Int) ==> r is Err,
+//@@ end
+
+//@@ fn file=serde_amqp/src/value/de.rs impl=`impl<'de> de::Deserializer<'de> for Deserializer` name=deserialize_u8 as=vde_u8
+//@@ generics
+//@@ nowhere
+//@@ param visitor : VisitorS
+//@@ ret Result<Visited, Error>
+//@@ spec
+    ensures
+        r is Ok ==> self.value is Ubyte && r->Ok_0 == Visited::U8(self.value->Ubyte_0),      // [C20.value.from-value-u8] a u8 is read out of the value tree only from the variant of that AMQP type, payload unchanged (no silent conversion from a neighbouring type)
+        !(self.value is Ubyte) ==> r is Err,
+//@@ end
+
+//@@ fn file=serde_amqp/src/value/de.rs impl=`impl<'de> de::Deserializer<'de> for Deserializer` name=deserialize_u16 as=vde_u16
+//@@ generics
+//@@ nowhere
+//@@ param visitor : VisitorS
+//@@ ret Result<Visited, Error>
+//@@ spec
+    ensures
+        r is Ok ==> self.value is Ushort && r->Ok_0 == Visited::U16(self.value->Ushort_0),      // [C20.value.from-value-u16] a u16 is read out of the value tree only from the variant of that AMQP type, payload unchanged (no silent conversion from a neighbouring type)
+        !(self.value is Ushort) ==> r is Err,
+//@@ end
+
+//@@ fn file=serde_amqp/src/value/de.rs impl=`impl<'de> de::Deserializer<'de> for Deserializer` name=deserialize_u32 as=vde_u32
+//@@ generics
+//@@ nowhere
+//@@ param visitor : VisitorS
+//@@ ret Result<Visited, Error>
+//@@ spec
+    ensures
+        r is Ok ==> self.value is Uint && r->Ok_0 == Visited::U32(self.value->Uint_0),      // [C20.value.from-value-u32] a u32 is read out of the value tree only from the variant of that AMQP type, payload unchanged (no silent conversion from a neighbouring type)
+        !(self.value is Uint) ==> r is Err,
+//@@ end
+
+//@@ fn file=serde_amqp/src/value/de.rs impl=`impl<'de> de::Deserializer<'de> for Deserializer` name=deserialize_u64 as=vde_u64
+//@@ generics
+//@@ nowhere
+//@@ param visitor : VisitorS
+//@@ ret Result<Visited, Error>
+//@@ spec
+    ensures
+        r is Ok ==> self.value is Ulong && r->Ok_0 == Visited::U64(self.value->Ulong_0),      // [C20.value.from-value-u64] a u64 is read out of the value tree only from the variant of that AMQP type, payload unchanged (no silent conversion from a neighbouring type)
+        !(self.value is Ulong) ==> r is Err,
+//@@ end
+
+//@@ fn file=serde_amqp/src/value/de.rs impl=`impl<'de> de::Deserializer<'de> for Deserializer` name=deserialize_char as=vde_char
+//@@ generics
+//@@ nowhere
+//@@ param visitor : VisitorS
+//@@ ret Result<Visited, Error>
+//@@ spec
+    ensures
+        r is Ok ==> self.value is Char && r->Ok_0 == Visited::Char(self.value->Char_0),      // [C20.value.from-value-char] a char is read out of the value tree only from the variant of that AMQP type, payload unchanged (no silent conversion from a neighbouring type)
+        !(self.value is Char) ==> r is Err,
+//@@ end
+
+}
+
 } // verus!
 fn main() {}
